@@ -523,6 +523,30 @@ func init() {
 					}
 					textwire.VerifReset()
 				}})
+			// string literals whose bytes are not UTF-8 (a template saved in another encoding): the function receives the bytes
+			badLits := []string{"caf\xe9", "\xff", "a\x80b", "\xe2\x82", "na\xefve \xfc", "ok é \xc3"}
+			secs = append(secs, core.Section{Name: "literals-that-are-not-utf8", Exhaustive: true, N: len(badLits) * 2,
+				Run: func(c *core.Ctx, i int) {
+					registerConversionFuncs()
+					c.State["conv"] = true
+					lit := badLits[i/2]
+					q := []string{"\"", "'"}[i%2]
+					src := "{{ " + q + lit + q + ".rec(" + q + lit + q + ", [" + q + lit + q + ", 1]) }}|{{ v.rec(" + q + lit + q + ") }}"
+					c.Input(map[string]any{"source": src})
+					cfLog = cfLog[:0]
+					got := evalString(c, src, map[string]any{"v": lit})
+					c.Nontrivial(src)
+					if got.Panicked {
+						return
+					}
+					if got.Err != nil || len(cfLog) != 2 {
+						c.Violation("conversion:call-failed", fmt.Sprintf("%q gave %s (the function ran %d times)", src, got.Describe(), len(cfLog)), map[string]any{"source": src})
+						return
+					}
+					if !sameNative(cfLog[0].recv, lit) || len(cfLog[0].args) != 2 || !sameNative(cfLog[0].args[0], lit) || !sameNative(cfLog[0].args[1], []any{lit, int64(1)}) || !sameNative(cfLog[1].recv, lit) || !sameNative(cfLog[1].args[0], lit) {
+						c.Violation("conversion:literal-bytes", fmt.Sprintf("the literal %q arrived as receiver %q with arguments %q; from the data as %q with %q", lit, cfLog[0].recv, cfLog[0].args, cfLog[1].recv, cfLog[1].args), map[string]any{"source": src})
+					}
+				}})
 			secs = append(secs, core.Section{Name: "conversion-special", Exhaustive: true, N: len(mutTemplates) + 6 + len(argFaultCases) + len(zeroLiterals) + 5 + 1 + 5,
 				Run: func(c *core.Ctx, i int) {
 					registerConversionFuncs()
